@@ -19,9 +19,10 @@ type Case struct {
 	Line  string // protocol line for the model
 	Impl  string // canonical output of the implementation
 	Class string // bucket for the input-distribution histogram
-	// Judge, when set, decides whether a model/impl disagreement on this case is a violation of the
-	// property (true) or only a broken correspondence (false). nil: every disagreement counts.
-	Prop string
+	// Spec: the line is a *specification* operation (property oracle): a mismatch is a concrete violation of
+	// the property. Otherwise the line runs the model of the code: a mismatch is a broken correspondence.
+	// A spec result "any" means the property does not constrain this input.
+	Spec bool
 }
 
 // Model is a running modeld process.
@@ -131,6 +132,7 @@ type Suite struct {
 	Disagreements []Disagreement // model vs implementation (broken correspondence)
 	Violations    []Disagreement // implementation vs property oracle (concrete failing inputs)
 	Notes         []string
+	NDis, NViol   int
 	start         time.Time
 	model         *Model
 }
@@ -173,9 +175,19 @@ func (s *Suite) Run(cases []Case) error {
 			if len(s.Samples) < 6 && (s.Evaluations%997 == 1) {
 				s.Samples = append(s.Samples, c.Line+" => "+c.Impl)
 			}
-			if outs[k] != c.Impl {
-				if len(s.Disagreements) < 50 {
-					s.Disagreements = append(s.Disagreements, Disagreement{Line: c.Line, Impl: c.Impl, Model: outs[k], Class: c.Class})
+			if outs[k] != c.Impl && !(c.Spec && outs[k] == "any") {
+				d := Disagreement{Line: c.Line, Impl: c.Impl, Model: outs[k], Class: c.Class}
+				if c.Spec {
+					s.NViol++
+					if len(s.Violations) < 50 {
+						d.Note = "implementation differs from the Lean specification"
+						s.Violations = append(s.Violations, d)
+					}
+				} else {
+					s.NDis++
+					if len(s.Disagreements) < 50 {
+						s.Disagreements = append(s.Disagreements, d)
+					}
 				}
 			}
 		}
@@ -197,6 +209,7 @@ func nontrivial(impl string) bool {
 
 // CheckOracle records a property violation found by comparing the implementation with a property oracle.
 func (s *Suite) Violation(line, impl, want, class, note string) {
+	s.NViol++
 	if len(s.Violations) < 50 {
 		s.Violations = append(s.Violations, Disagreement{Line: line, Impl: impl, Model: want, Class: class, Note: note})
 	}
@@ -215,6 +228,8 @@ type Report struct {
 	Disagreements []Disagreement `json:"disagreements"`
 	Violations    []Disagreement `json:"violations"`
 	Notes         []string       `json:"notes"`
+	NDis          int            `json:"n_disagreements"`
+	NViol         int            `json:"n_violations"`
 	WallS         float64        `json:"wall_s"`
 	Rule          string         `json:"rule"`
 }
@@ -222,7 +237,7 @@ type Report struct {
 func (s *Suite) Report(tier string, seed int64, rule string) Report {
 	return Report{Property: s.Prop, Tier: tier, Seed: seed, Evaluations: s.Evaluations, Distinct: len(s.Distinct),
 		Classes: s.Classes, Outcomes: s.Outcomes, Samples: s.Samples, Disagreements: s.Disagreements, Violations: s.Violations,
-		Notes: s.Notes, WallS: time.Since(s.start).Seconds(), Rule: rule}
+		Notes: s.Notes, NDis: s.NDis, NViol: s.NViol, WallS: time.Since(s.start).Seconds(), Rule: rule}
 }
 
 func writeReport(path string, r Report) error {
